@@ -21,13 +21,13 @@ def rbytes(rng, lo, hi):
 	return bytes(rng.getrandbits(8) for _ in range(rng.randint(lo, hi)))
 
 
-def chunked_body(rng, payload=None, trailers=None, le=b'\r\n'):
+def chunked_body(rng, payload=None, trailers=None, le=b'\r\n', sizes=(6, 6, 40, 300), exact=False):
 	if payload is None:
 		payload = rbytes(rng, 0, 10)
 	out = b''
 	i = 0
 	while i < len(payload):
-		n = rng.randint(1, max(1, min(rng.choice([6, 6, 40, 300]), len(payload) - i)))
+		n = min(rng.choice(sizes), len(payload) - i) if exact else rng.randint(1, max(1, min(rng.choice(sizes), len(payload) - i)))
 		c = payload[i:i + n]
 		i += n
 		size = rng.choice([b'%x', b'%X', b'0%x', b'%x ']) % (len(c),)
@@ -146,7 +146,7 @@ def field_value(rng):
 	return bytes(rng.choice([0xe4, 0xfc, 0x80, 0xff, 0x41]) for _ in range(rng.randint(1, 4)))
 
 
-def gen_wf(rng, kind, n=None):
+def gen_wf(rng, kind, n=None, paylen=None, chunk_sizes=None):
 	"""returns (list of ground-truth dicts, list of per-message serialisations)"""
 	msgs, sers = [], []
 	for _ in range(n or rng.randint(1, 4)):
@@ -202,6 +202,9 @@ def gen_wf(rng, kind, n=None):
 				for _ in range(rng.randint(1, 2)):
 					fields.append((rng.choice([nme, nme.lower(), nme.upper()]), field_value(rng)))
 		payload = rbytes(rng, 0, rng.choice([0, 3, 20, 60, 200, 700])) if has_body else b''
+		if has_body and paylen is not None:
+			# boundary arithmetic: a payload of exactly this many octets (2^k, 2^k +- 1), chunks of exactly the given sizes
+			payload = bytes(rng.randrange(256) for _ in range(paylen))
 		chunked = has_body and ver == (1, 1) and rng.random() < .5
 		trailers = []
 		if chunked:
@@ -225,7 +228,7 @@ def gen_wf(rng, kind, n=None):
 			ser += nme + b':' + rng.choice([b'', b' ', b'  ', b'\t']) + val + rng.choice([b'', b' ', b'\t ']) + b'\r\n'
 		ser += b'\r\n'
 		if chunked:
-			ser += chunked_body(rng, payload, [n + b': ' + v for n, v in trailers])
+			ser += chunked_body(rng, payload, [n + b': ' + v for n, v in trailers], **({'sizes': chunk_sizes, 'exact': True} if chunk_sizes else {}))
 		else:
 			ser += payload
 		# expected header multimap: lower-case name -> values in arrival order (trailer fields after header fields)
